@@ -104,6 +104,67 @@ def lzdata_for(h):
 
 
 # ---------------------------------------------------------------------------------
+# chunk shapes: the same records handed to a writer / appender as a fresh contiguous array, as a strided or
+# reversed view into a larger array (garbage between the records), as a slice at an offset of a larger array,
+# through a fancy index, or as the 0-d one-point record that points[i] yields.  The bytes a writer has to put
+# into the file are rec_bytes(record) in every case; compressed destinations must treat them like plain ones.
+# ---------------------------------------------------------------------------------
+SHAPES = ("plain", "plain", "strided", "reversed", "strided-reversed", "offset", "fancy", "zero-d")
+GARBAGE, SCRIBBLE = 0xE7, 0x5C
+
+
+def shaped(rec, shape):
+    """(record of the same class / content as `rec` whose array has the given memory shape, backing array, shape used)"""
+    arr = np.ascontiguousarray(rec.array).reshape(-1)
+    k = len(arr)
+
+    def filled(m):
+        big = np.empty(m, arr.dtype)
+        big.view(np.uint8)[:] = GARBAGE
+        return big
+    if shape == "zero-d" and k != 1:
+        shape = "strided"
+    if shape == "strided":
+        big = filled(2 * k + 1)
+        big[1::2] = arr
+        view = big[1::2]
+    elif shape == "reversed":
+        big = arr[::-1].copy()
+        view = big[::-1]
+    elif shape == "strided-reversed":
+        big = filled(3 * k + 2)
+        big[1::3][:k] = arr[::-1]
+        view = big[1::3][:k][::-1]
+    elif shape == "offset":
+        big = filled(k + 3)
+        big[2:2 + k] = arr
+        view = big[2:2 + k]
+    elif shape == "fancy":
+        big = filled(k + 2)
+        big[1:1 + k] = arr
+        view = big[list(range(1, 1 + k))] if k else big[0:0]
+    elif shape == "zero-d":
+        big = arr.copy()
+        view = big[0]
+    else:
+        big = arr.copy()
+        view = big
+    if hasattr(rec, "scales"):
+        out = type(rec)(view, rec.point_format, rec.scales, rec.offsets)
+    else:
+        out = type(rec)(view, rec.point_format)
+    return out, big, shape
+
+
+def scribble(backing):
+    """the caller reuses its buffer after the call returned: nothing written so far may change"""
+    try:
+        backing.view(np.uint8)[:] = SCRIBBLE
+    except Exception:  # noqa
+        pass
+
+
+# ---------------------------------------------------------------------------------
 # data sets: the input spaces of C01 / C03-C06 with counts straddling the chunk size
 # ---------------------------------------------------------------------------------
 def make_data(rng):
@@ -127,10 +188,12 @@ def make_data(rng):
     if rng.random() < 0.3:
         cuts.insert(rng.randrange(len(cuts) + 1), (pos, pos))
     bsel = rng.choice(backend_choices())
-    return {"cs": cs, "h": h, "pts": pts, "evl": evl, "cuts": cuts, "backend": bsel,
+    shapes = [rng.choice(SHAPES) for _ in cuts]
+    shapes = [("strided" if (sh == "zero-d" and b - a != 1) else sh) for sh, (a, b) in zip(shapes, cuts)]
+    return {"cs": cs, "h": h, "pts": pts, "evl": evl, "cuts": cuts, "shapes": shapes, "backend": bsel,
             "desc": {"chunk_size": cs, "version": str(h.version), "format": h.point_format.id, "points": n, "vlrs": len(h.vlrs),
                      "evlrs": len(evl), "extra_dims": len(list(h.point_format.extra_dimensions)),
-                     "chunks": [b - a for a, b in cuts], "backend": bsel[0]}}
+                     "chunks": [b - a for a, b in cuts], "chunk_shapes": shapes, "backend": bsel[0]}}
 
 
 def write_session(d, compress, chunked=True, backend="own"):
@@ -140,8 +203,10 @@ def write_session(d, compress, chunked=True, backend="own"):
     bio = io.BytesIO()
     w = laspy.LasWriter(bio, d["h"], do_compress=compress, closefd=False, **(kw(bk) if compress else {}))
     if chunked:
-        for a, b in d["cuts"]:
-            w.write_points(d["pts"][a:b])
+        for (a, b), sh in zip(d["cuts"], d.get("shapes") or ["plain"] * len(d["cuts"])):
+            rec, backing, _ = shaped(d["pts"][a:b], sh)
+            w.write_points(rec)
+            scribble(backing)      # the caller's buffer is reused right after the call
     elif len(d["pts"]):
         w.write_points(d["pts"])
     if d["evl"]:
@@ -158,11 +223,17 @@ def datasets(ctx):
             d = make_data(ctx.rng)
             fake_lazrs.CHUNK_SIZE = d["cs"]
             try:
+                d["las"] = write_session(d, False, False)
+                d["las_chunked"] = write_session(d, False, True)
+            except Exception as ex:  # noqa
+                d["error_las"] = f"{type(ex).__name__}: {ex}"
+            try:
                 d["laz_chunked"] = write_session(d, True, True)
                 d["laz_oneshot"] = write_session(d, True, False)
-                d["las"] = write_session(d, False, False)
             except Exception as ex:  # noqa
                 d["error"] = f"{type(ex).__name__}: {ex}"
+            if "error_las" in d and "error" not in d:
+                d["error"] = "the uncompressed session failed: " + d["error_las"]
             _DATA.append(d)
     return _DATA
 
@@ -347,11 +418,14 @@ def histories(ctx):
 # ---------------------------------------------------------------------------------
 def gen_ops(rng, n, cs):
     """in-range point-source histories: ('R', k) read k records, ('S', i) seek to record i"""
-    ops, c = [], 0
+    ops, c, last = [], 0, None
     for _ in range(rng.randrange(1, 9)):
         if rng.random() < 0.65:
             k = rng.choice([0, 1, cs, cs + 1, n - c, rng.randrange(0, n - c + 1)])
+            if last is not None and rng.random() < 0.35:
+                k = last              # the same size again: a reader that recycles its buffers would hand out the same one
             k = max(0, min(k, n - c))
+            last = k
             ops.append(("R", k))
             c += k
         elif n:
@@ -362,20 +436,27 @@ def gen_ops(rng, n, cs):
 
 
 def run_point_source(raw, backend, ops):
+    """outputs of a point-source history, as they are when handed out and - every buffer kept alive - as they are
+    after the whole history (the model's outputs are values: both must be what the model says)"""
     import laspy
     r = laspy.open(io.BytesIO(raw), **kw(backend))
     src = r.point_source
-    outs = []
+    outs, kept = [], []
     for op, v in ops:
         try:
             if op == "R":
-                outs.append("o" + common.hexb(bytes(src.read_n_points(v))))
+                buf = src.read_n_points(v)
+                kept.append((len(outs), buf))
+                outs.append("o" + common.hexb(bytes(buf)))
             else:
                 src.seek(v)
                 outs.append("ox")
         except Exception as ex:  # noqa
             outs.append("e" + common.exc_kind(ex))
-    return outs
+    finals = list(outs)
+    for j, buf in kept:
+        finals[j] = "o" + common.hexb(bytes(buf))
+    return outs, finals
 
 
 def run_reader(raw, backend, ops):
@@ -395,13 +476,164 @@ def run_reader(raw, backend, ops):
     return outs
 
 
-def append_session(raw, h, chunks, backend):
+# ---------------------------------------------------------------------------------
+# kept pieces: everything a reader hands out (read_points results, the chunks of an iterator, the LasData of read())
+# stays what it was when handed out, whatever the reader is asked to do later - and a caller writing into a piece it
+# was given does not change what the reader returns later
+# ---------------------------------------------------------------------------------
+def gen_keep_ops(rng, n, cs, seekable=True):
+    """('R', k) read_points(k), k<0 = the rest | ('S', i) seek(i) | ('I', k, m) m chunks (None = all) of chunk_iterator(k)
+    | ('A',) read() | ('W', j) the caller overwrites kept piece j"""
+    ops = []
+    ks = [rng.choice([1, 1, 2, cs, cs + 1, max(1, n // 2)])]
+    ks += [ks[0], ks[0], rng.choice([0, 1, cs, cs + 1, n, 7])]
+    for _ in range(rng.randrange(2, 10)):
+        r = rng.random()
+        if r < 0.42:
+            ops.append(("R", rng.choice(ks + [-1] if rng.random() < 0.15 else ks)))
+        elif r < 0.62:
+            if seekable:
+                ops.append(("S", rng.choice([0, 0, n - 1, cs, cs - 1, rng.randrange(-1, n + 2)])))
+        elif r < 0.78:
+            ops.append(("I", max(1, rng.choice(ks)), rng.choice([None, 1, 2, 3])))
+        elif r < 0.88:
+            ops.append(("A",))
+        else:
+            ops.append(("W", rng.randrange(0, 6)))
+    # the header's VLR list is looked at after the history: the LasZip record may be visible only while the lazy point
+    # source of a non-empty compressed file does not exist yet, so the history ends by touching it
+    ops.append(("R", 0))
+    return ops
+
+
+def _scribble_rec(rec):
+    """True when the caller could write into the piece"""
+    arr = rec.array
+    if arr.size == 0:
+        return False
+    try:
+        arr.view(np.uint8)[...] = SCRIBBLE
+        return True
+    except Exception:  # noqa
+        return False
+
+
+def run_keep(raw, backend, ops, seekable=True):
+    """runs the history through the public LasReader keeping every piece; returns the outcomes per op, per piece the
+    bytes at hand-out and at the end (after the reader was closed), the pieces seen to change under a later operation,
+    and the summaries of the LasData objects at hand-out and at the end"""
+    import laspy
+    src = io.BytesIO(raw) if seekable else NonSeekable(raw)
+    outs, kept, whole, changed = [], [], [], []
+    r = laspy.open(src, closefd=True, **kw(backend))
+
+    def keep(rec, i):
+        b = lasio.rec_bytes(rec)
+        kept.append({"obj": rec, "snap": b, "expect": b, "op": i, "scribbled": False})
+
+    def check(after):
+        for j, p in enumerate(kept):
+            cur = lasio.rec_bytes(p["obj"])
+            if cur != p["expect"]:
+                changed.append({"piece": j, "handed_out_by_op": p["op"], "changed_by_op": after,
+                                "was": common.hexb(p["expect"][:12]), "is": common.hexb(cur[:12])})
+                p["expect"] = cur
+        for w in whole:
+            cur = read_summary(w["obj"])
+            if cur != w["expect"]:
+                changed.append({"lasdata_of_op": w["op"], "changed_by_op": after, "what": diff_keys(w["expect"], cur)})
+                w["expect"] = cur
+    for i, op in enumerate(ops):
+        try:
+            if op[0] == "R":
+                rec = r.read_points(op[1])
+                keep(rec, i)
+                outs.append(("read", len(rec)))
+            elif op[0] == "S":
+                outs.append(("seek", r.seek(op[1])))
+            elif op[0] == "I":
+                it = r.chunk_iterator(op[1])
+                got = 0
+                for rec in it:
+                    keep(rec, i)
+                    got += 1
+                    if op[2] is not None and got >= op[2]:
+                        break
+                outs.append(("chunks", got))
+            elif op[0] == "A":
+                las = r.read()
+                keep(las.points, i)
+                sm = read_summary(las)
+                whole.append({"obj": las, "snap": sm, "expect": sm, "op": i})
+                outs.append(("lasdata", len(las.points)))
+            elif op[0] == "W":
+                if kept:
+                    p = kept[op[1] % len(kept)]
+                    ok = _scribble_rec(p["obj"])
+                    p["expect"] = lasio.rec_bytes(p["obj"])
+                    for w in whole:
+                        w["expect"] = read_summary(w["obj"])
+                    outs.append(("overwrite", op[1] % len(kept), ok))
+                else:
+                    outs.append(("overwrite", None))
+        except Exception as ex:  # noqa
+            outs.append("err:" + common.exc_kind(ex))
+        check(i)
+    outs.append(("vlrs", [lasio.vlr_tuple(v) for v in r.header.vlrs]))
+    try:
+        r.close()
+    except Exception as ex:  # noqa
+        outs.append("close-err:" + common.exc_kind(ex))
+    check("close")
+    return {"outs": outs, "snaps": [p["snap"] for p in kept], "finals": [lasio.rec_bytes(p["obj"]) for p in kept],
+            "piece_ops": [p["op"] for p in kept], "changed": changed,
+            "whole_snaps": [w["snap"] for w in whole], "whole_finals": [read_summary(w["obj"]) for w in whole]}
+
+
+def expected_pieces(ref_points, psize, n, ops):
+    """what the pieces of a history are, from the records of the file alone (the cursor rule of C05: clamp to what is left)"""
+    c, out = 0, []
+
+    def take(k):
+        nonlocal c
+        left = max(n - c, 0)
+        k = left if k < 0 else min(k, left)
+        out.append(ref_points[c * psize:(c + k) * psize])
+        c += k
+        return k
+    for op in ops:
+        if op[0] == "R":
+            take(op[1])
+        elif op[0] == "S":
+            if 0 <= op[1] < n:
+                c = op[1]
+        elif op[0] == "I":
+            got = 0
+            while True:
+                if n - c <= 0:
+                    break
+                take(op[1])
+                got += 1
+                if op[2] is not None and got >= op[2]:
+                    break
+        elif op[0] == "A":
+            take(-1)
+    return out
+
+
+def append_session(raw, h, chunks, backend, shapes=None):
     import laspy
     bio = io.BytesIO(raw)
     with laspy.open(bio, mode="a", closefd=False, **kw(backend)) as a:
-        for c in chunks:
-            a.append_points(c)
+        for c, sh in zip(chunks, shapes or ["plain"] * len(chunks)):
+            rec, backing, _ = shaped(c, sh)
+            a.append_points(rec)
+            scribble(backing)
     return bio.getvalue()
+
+
+def pick_shapes(rng, chunks):
+    return [shaped(c, rng.choice(SHAPES))[2] for c in chunks]
 
 
 def gen_append(rng, d):
@@ -421,7 +653,13 @@ def correspond(ctx):
         "(empty ones included), +-EVLRs (1.4), backend given as none / serial / parallel / list / tuple. Compared with the model: the "
         "compress decision over {laspy.open, LasData.write, LasWriter} x {17 path names, pathlib, stream, file object} x do_compress x "
         "backend; the 256 format ids; 1-7 step VLR-list histories (write las/laz, open, touch, user append); bytes of chunked and "
-        "one-shot compressed sessions; seekable and non-seekable reads; point-source read/seek histories; append sessions. "
+        "one-shot compressed sessions; seekable and non-seekable reads; point-source read/seek histories (every buffer handed out is "
+        "kept alive and compared again after the history); append sessions. Chunks reach writers and appenders - compressing and plain - "
+        "as fresh arrays, strided / reversed / strided-reversed views with garbage between the records, offset slices, fancy-index "
+        "copies and 0-d one-point records, and the caller's buffer is overwritten right after each call. Search only: histories of "
+        "read_points / seek / partial and full chunk_iterator / read() / caller overwriting a kept piece on the public reader of the "
+        "compressed and the uncompressed file (seekable and non-seekable), every piece and LasData kept until after close and compared "
+        "with its value at hand-out, with the slice of the records and with the other file. "
         "non-trivial = compressed data with at least one point or a decision/bit/history case; distinct by inputs")
     dis = []
     cmds, tags = [], []
@@ -447,8 +685,6 @@ def correspond(ctx):
     ds = datasets(ctx)
     rng = ctx.rng
     for i, d in enumerate(ds):
-        if "error" in d:
-            continue
         h = d["h"]
         cs = d["cs"]
         fake_lazrs.CHUNK_SIZE = cs
@@ -456,6 +692,11 @@ def correspond(ctx):
         vt, et = lasio.vlrs_tok(h.vlrs), lasio.vlrs_tok(d["evl"])
         ps = h.point_format.size
         q(f"chunk {cs}", ("nop", i))
+        if "error" in d:
+            # the implementation refused / failed a session the generator only builds from acceptable parts: the model decides
+            q(f"lazsession {ha} {vt} {h.point_format.id} {ps} {et} "
+              + " ".join(common.hexb(lasio.rec_bytes(d['pts'][a:b])) for a, b in d["cuts"]), ("session_err", i))
+            continue
         q(f"lazfile {ha} {vt} {h.point_format.id} {ps} {common.hexb(lasio.rec_bytes(d['pts']))} {et}", ("file", i))
         q(f"lazsession {ha} {vt} {h.point_format.id} {ps} {et} "
           + " ".join(common.hexb(lasio.rec_bytes(d['pts'][a:b])) for a, b in d["cuts"]), ("session", i))
@@ -478,21 +719,22 @@ def correspond(ctx):
             d["ops"] = ops
             q(f"cursor {btok} {common.hexb(d['laz_chunked'])} " + " ".join(f"{o}{v}" for o, v in ops), ("cursor", i))
             try:
-                d["cursor"] = run_point_source(d["laz_chunked"], bk, ops)
+                d["cursor"], d["cursor_kept"] = run_point_source(d["laz_chunked"], bk, ops)
             except Exception as ex:  # noqa
-                d["cursor"] = ["raised:" + common.exc_kind(ex)]
+                d["cursor"] = d["cursor_kept"] = ["raised:" + common.exc_kind(ex)]
         # append
         chunks = gen_append(rng, d)
         d["app_chunks"] = chunks
+        d["app_shapes"] = pick_shapes(rng, chunks)
         par = btok[0] == "P"
         q(f"lazappend {'T' if par else 'F'} {ps} {common.hexb(d['laz_chunked'])} "
           + " ".join(common.hexb(lasio.rec_bytes(c)) for c in chunks), ("append", i))
         try:
-            d["appended"] = append_session(d["laz_chunked"], h, chunks, bk)
+            d["appended"] = append_session(d["laz_chunked"], h, chunks, bk, d["app_shapes"])
         except Exception as ex:  # noqa
             d["appended"] = ex
         try:
-            d["appended_las"] = append_session(d["las"], h, chunks, None)
+            d["appended_las"] = append_session(d["las"], h, chunks, None, d["app_shapes"])
         except Exception as ex:  # noqa
             d["appended_las"] = ex
     outs = common.run_model(cmds, name="c14")
@@ -538,6 +780,10 @@ def correspond(ctx):
                 ctx.count("backend:" + desc["backend"])
                 if mo != "ok " + common.hexb(d["laz_oneshot"]):
                     bad("compressed file bytes (one-shot)", desc, where_differs(mo, d["laz_oneshot"]), f"{len(d['laz_oneshot'])} bytes")
+            elif tag == "session_err":
+                ctx.case(("session_err", repr(desc)), nontrivial=True)
+                if mo.startswith("ok"):
+                    bad("compressed session fails in the implementation", desc, "accepted: " + mo[:60], d["error"])
             elif tag == "session":
                 ctx.case(("session", d["laz_chunked"], tuple(desc["chunks"])), nontrivial=len([c for c in desc["chunks"] if c]) >= 2)
                 if mo != "ok " + common.hexb(d["laz_chunked"]):
@@ -559,6 +805,10 @@ def correspond(ctx):
                 mm = [("ox" if ops[j][0] == "S" and t == "ox" else t) for j, t in enumerate(mm)]
                 if m[0] != "ok" or mm != exp or m[2] != m[1] or m[3] != "T":
                     bad("point-source history", {**desc, "ops": ops}, mo[:200], ",".join(exp)[:200])
+                elif mm != list(d["cursor_kept"]):
+                    k = next((j for j, (a, b) in enumerate(zip(mm, d["cursor_kept"])) if a != b), 0)
+                    bad("point-source history: a buffer handed out earlier changed under later operations", {**desc, "ops": ops, "step": k},
+                        f"step {k} ({ops[k]}) yields {mm[k][:80]}", f"the buffer of step {k}, kept by the caller, holds {d['cursor_kept'][k][:80]} after the history")
             elif tag == "append":
                 ctx.case(("append", d["laz_chunked"], tuple(len(c) for c in d["app_chunks"])), nontrivial=any(len(c) for c in d["app_chunks"]))
                 ctx.count("append-session")
@@ -566,7 +816,8 @@ def correspond(ctx):
                 if isinstance(got, Exception):
                     bad("append session", desc, mo[:80], f"raised {type(got).__name__}: {got}")
                 elif mo != "ok " + common.hexb(got):
-                    bad("append session bytes", {**desc, "appended": [len(c) for c in d["app_chunks"]]}, where_differs(mo, got), f"{len(got)} bytes")
+                    bad("append session bytes", {**desc, "appended": [len(c) for c in d["app_chunks"]], "appended_shapes": d["app_shapes"]},
+                        where_differs(mo, got), f"{len(got)} bytes")
     return dis
 
 
@@ -628,10 +879,12 @@ def run_session_both(sess, compress, backend):
     except Exception as ex:  # noqa
         return ["open-err:" + common.exc_kind(ex)], None
     outs = []
-    for op in sess["ops"]:
+    for op, sh in zip(sess["ops"], sess.get("shapes") or [None] * len(sess["ops"])):
         try:
             if op[0] == "P":
-                w.write_points(op[1])
+                rec, backing, _ = shaped(op[1], sh or "plain")
+                w.write_points(rec)
+                scribble(backing)
             elif op[0] == "E":
                 w.write_evlrs(op[1])
             else:
@@ -642,15 +895,17 @@ def run_session_both(sess, compress, backend):
     return outs, bio.getvalue()
 
 
-def mixed_append(rng, raw, h, backend, chunks):
+def mixed_append(rng, raw, h, backend, chunks, shapes=None):
     """a C06 append session: same-format records, scale-aware records with other scales/offsets, foreign formats"""
     import laspy
     bio = io.BytesIO(raw)
     outs = []
     with laspy.open(bio, mode="a", closefd=False, **kw(backend)) as a:
-        for c in chunks:
+        for c, sh in zip(chunks, shapes or ["plain"] * len(chunks)):
             try:
-                a.append_points(c)
+                rec, backing, _ = shaped(c, sh)
+                a.append_points(rec)
+                scribble(backing)
                 outs.append("ok")
             except Exception as ex:  # noqa
                 outs.append("err:" + common.exc_kind(ex))
@@ -747,12 +1002,14 @@ def search(ctx, seeds):
     for d in datasets(ctx):
         desc = d["desc"]
         if "error" in d:
-            add("compressed write failed", desc, d["error"])
+            add("compressed write failed" if "error_las" not in d else "chunked write failed", desc, d["error"])
             continue
         fake_lazrs.CHUNK_SIZE = d["cs"]
         h = d["h"]
         bname, bk, btok = d["backend"]
         laz, las_raw = d["laz_chunked"], d["las"]
+        if d["las_chunked"] != las_raw:
+            add("chunked uncompressed write differs from one-shot", desc, where_differs("ok " + common.hexb(d["las_chunked"]), las_raw))
         # the file itself
         if not fmt_byte(laz) & 0x80 or fmt_byte(laz) & 0x40 or (fmt_byte(laz) & 0x3F) != h.point_format.id:
             add("point-format byte of a compressed file", desc, f"byte 104 = {fmt_byte(laz):#x}")
@@ -765,10 +1022,13 @@ def search(ctx, seeds):
             ref = read_summary(laspy.read(io.BytesIO(las_raw)))
         except Exception as ex:  # noqa
             continue
-        # whole-file reads, every backend selection
+        # whole-file reads, every backend selection (the LasData objects are kept and looked at again at the end)
+        alive = []
         for bn, bsel, _ in backend_choices():
             try:
-                got = read_summary(laspy.read(io.BytesIO(laz), **kw(bsel)))
+                obj = laspy.read(io.BytesIO(laz), **kw(bsel))
+                got = read_summary(obj)
+                alive.append((bn, obj, got))
             except Exception as ex:  # noqa
                 add(f"compressed read failed ({bn})", desc, f"{type(ex).__name__}: {ex}")
                 continue
@@ -812,6 +1072,48 @@ def search(ctx, seeds):
                 add("chunk iterator over a compressed file", desc, f"{len(acc)} bytes vs {len(ref['points'])}")
         except Exception as ex:  # noqa
             add("chunk iterator over a compressed file failed", desc, f"{type(ex).__name__}: {ex}")
+        # kept pieces: the same history on both files, every piece kept alive until after the reader is closed
+        psize = h.point_format.size
+        for seekable in ((True, False) if rng.random() < 0.5 else (True,)):
+            if not seekable and desc["points"] == 0 and desc["evlrs"] > 0:
+                continue    # the open known finding (reported above under its own kind)
+            kbk = bk if (seekable or "S" in btok) else B().Lazrs
+            kops = gen_keep_ops(rng, n, d["cs"], seekable)
+            kin = {**desc, "seekable_source": seekable, "ops": kops}
+            ctx.case(("keep", laz, seekable, tuple(kops)), nontrivial=n > 0)
+            ctx.count("kept-pieces history" + ("" if seekable else " (non-seekable)"))
+            for o in kops:
+                ctx.count("kept-pieces op:" + o[0])
+            try:
+                ka = run_keep(laz, kbk, kops, seekable)
+                kb = run_keep(las_raw, None, kops, seekable)
+            except Exception as ex:  # noqa
+                add("kept-pieces history failed", kin, f"{type(ex).__name__}: {ex}")
+                continue
+            exp = expected_pieces(ref["points"], psize, n, kops)
+            for side, kr in (("compressed", ka), ("uncompressed", kb)):
+                if kr["changed"]:
+                    c0 = kr["changed"][0]
+                    upto = c0["changed_by_op"] + 1 if isinstance(c0["changed_by_op"], int) else len(kops)
+                    add(f"a piece handed out by the reader of a {side} file changed under a later reader operation",
+                        {**kin, "ops": kops[:upto], "closed_after": c0["changed_by_op"] == "close"}, c0)
+                elif kr["snaps"] != exp:
+                    k = next((j for j, (x, y) in enumerate(zip(kr["snaps"], exp)) if x != y), min(len(exp), len(kr["snaps"])))
+                    add(f"a piece handed out by the reader of a {side} file is not the slice of the file's records", kin,
+                        f"piece {k} of {len(kr['snaps'])} (expected {len(exp)} pieces), handed out by op {kr['piece_ops'][k] if k < len(kr['piece_ops']) else '-'}")
+            if ka["outs"] != kb["outs"]:
+                k = next((j for j, (x, y) in enumerate(zip(ka["outs"], kb["outs"])) if x != y), 0)
+                add("kept-pieces history: outcomes differ between compressed and uncompressed", {**kin, "ops": kops[:k + 1]},
+                    f"step {k}: {str(ka['outs'][k])[:80]} vs {str(kb['outs'][k])[:80]}")
+            elif ka["finals"] != kb["finals"] or ka["snaps"] != kb["snaps"]:
+                k = next((j for j, (x, y) in enumerate(zip(ka["finals"], kb["finals"])) if x != y), 0)
+                add("kept pieces differ between compressed and uncompressed", kin,
+                    f"piece {k} (handed out by op {ka['piece_ops'][k]}): {common.hexb(ka['finals'][k][:12])}.. vs {common.hexb(kb['finals'][k][:12])}..")
+            for wa, wb in list(zip(ka["whole_snaps"], kb["whole_snaps"])) + list(zip(ka["whole_finals"], kb["whole_finals"])):
+                dk = diff_keys(wb, wa)
+                if dk:
+                    add("LasData of reader.read() differs between compressed and uncompressed: " + ",".join(dk), kin,
+                        {k: (str(wb[k])[:60], str(wa[k])[:60]) for k in dk[:3]})
         # append
         if "appended" in d:
             ap, apl = d["appended"], d["appended_las"]
@@ -862,17 +1164,24 @@ def search(ctx, seeds):
                         {**desc, "route": "header taken from a LAZ reader before its point source exists"}, f"{k} LasZip record(s)")
         except Exception as ex:  # noqa
             add("re-writing a compressed file failed", desc, f"{type(ex).__name__}: {ex}")
+        for bn, obj, was in alive:
+            dk = diff_keys(was, read_summary(obj))
+            if dk:
+                add("what laspy.read returned for a compressed file changed under later reads / writes: " + ",".join(dk),
+                    {**desc, "read_backend": bn}, "the LasData was only kept by the caller")
     # (d) the writer sessions of C04 (refusals included) and the append sessions of C06 (rescaled and foreign records
     #     included), compressed against uncompressed: same outcomes, same read-back
     for _ in range(ctx.n(60, 600)):
         cs = rng.choice(CS_CHOICES)
         fake_lazrs.CHUNK_SIZE = cs
         sess = sessions.gen_writer_session(rng, ctx.thorough())
+        sess["shapes"] = [(shaped(o[1], rng.choice(SHAPES))[2] if o[0] == "P" else None) for o in sess["ops"]]
         bk = rng.choice(backend_choices())
         oz, rz_ = run_session_both(sess, True, bk[1])
         ou, ru_ = run_session_both(sess, False, None)
         sd = {"chunk_size": cs, "version": str(sess["header"].version), "format": sess["header"].point_format.id, "backend": bk[0],
-              "ops": [(o[0] + (str(len(o[1])) + ("" if o[0] != "P" or o[2] else "!fmt")) if o[0] != "C" else "C") for o in sess["ops"]]}
+              "ops": [(o[0] + (str(len(o[1])) + ("" if o[0] != "P" or o[2] else "!fmt")) if o[0] != "C" else "C") for o in sess["ops"]],
+              "shapes": sess["shapes"]}
         ctx.case(("wsession", repr(sd)), nontrivial=True)
         ctx.count("writer-session(C04)")
         for o in oz:
@@ -892,12 +1201,13 @@ def search(ctx, seeds):
             continue
         fake_lazrs.CHUNK_SIZE = d["cs"]
         chunks = gen_mixed_chunks(rng, d["h"], d["cs"])
-        sd = {**d["desc"], "appended": [f"{type(c).__name__[:5]}{len(c)}" for c in chunks]}
+        mshapes = pick_shapes(rng, chunks)
+        sd = {**d["desc"], "appended": [f"{type(c).__name__[:5]}{len(c)}" for c in chunks], "appended_shapes": mshapes}
         ctx.case(("mixed-append", repr(sd)), nontrivial=True)
         ctx.count("append-session(C06 mix)")
         try:
-            oz, rz_ = mixed_append(rng, d["laz_chunked"], d["h"], d["backend"][1], chunks)
-            ou, ru_ = mixed_append(rng, d["las"], d["h"], None, chunks)
+            oz, rz_ = mixed_append(rng, d["laz_chunked"], d["h"], d["backend"][1], chunks, mshapes)
+            ou, ru_ = mixed_append(rng, d["las"], d["h"], None, chunks, mshapes)
         except Exception as ex:  # noqa
             add("mixed append session failed", sd, f"{type(ex).__name__}: {ex}")
             continue
@@ -917,6 +1227,32 @@ def search(ctx, seeds):
 
 
 def replay(ctx, data):
+    fi = data.get("failing_input", data)
+    inp = fi.get("input", {}) if isinstance(fi, dict) else {}
+    if isinstance(inp, dict) and "ops" in inp and "seekable_source" in inp:
+        # a kept-pieces history: it does not depend on the particular records, a file of the described size is enough
+        import laspy
+        rng = ctx.rng
+        fake_lazrs.CHUNK_SIZE = int(inp.get("chunk_size", 3))
+        h = laspy.LasHeader(version=inp.get("version", "1.2"), point_format=int(inp.get("format", 0)))
+        n = int(inp.get("points", 0))
+        pts = lasio.rand_points(rng, h, n, pattern="random")
+        d = {"h": h, "pts": pts, "evl": [], "cuts": [(0, n)], "backend": ("serial", B().Lazrs, "S")}
+        laz, las_raw = write_session(d, True, False), write_session(d, False, False)
+        ops = [tuple(o) for o in inp["ops"]]
+        bk = {n_: b_ for n_, b_, _ in backend_choices()}.get(inp.get("backend"), None)
+        if not inp["seekable_source"] and inp.get("backend") == "parallel":
+            bk = B().Lazrs
+        ka, kb = run_keep(laz, bk, ops, inp["seekable_source"]), run_keep(las_raw, None, ops, inp["seekable_source"])
+        exp = expected_pieces(lasio.rec_bytes(pts), h.point_format.size, n, ops)
+        bad = bool(ka["changed"] or kb["changed"] or ka["outs"] != kb["outs"] or ka["finals"] != kb["finals"] or ka["snaps"] != exp
+                   or ka["whole_finals"] != kb["whole_finals"])
+        print(f"replay of a kept-pieces history on a fresh {n}-point file of format {h.point_format.id} (chunk size {fake_lazrs.CHUNK_SIZE}): ops={ops}")
+        print("  pieces changed under later operations (compressed):", ka["changed"][:2])
+        print("  pieces changed under later operations (uncompressed):", kb["changed"][:2])
+        print("  pieces at the end equal between the files:", ka["finals"] == kb["finals"], "| equal to the slices when handed out:", ka["snaps"] == exp)
+        print("REPRODUCED" if bad else "not reproduced on this source tree")
+        return 1 if bad else 0
     print("replay: re-run ./check C14 with the same VERIF_SEED; the failing input is described in the file:")
-    print(str(data.get("failing_input", data))[:600])
+    print(str(fi)[:600])
     return 0
